@@ -703,6 +703,36 @@ for kind in ("point", "sdh", "crack"):
             chk.violation(f"{kind}:grid-caller-edit:grid", f"make_angles_grid({nang}) after a caller edited an earlier result is not the documented grid",
                           dict(numangles=nang, got_inc=np.asarray(g2_[0]), got_out=np.asarray(g2_[1])), failing_input_found=True)
 
+# ---- image-sized angle sets (every pixel x every element): the value for an angle pair does not depend on how many other
+#      pairs are evaluated in the same call nor on its position in the array (whole array vs the same pairs in small batches,
+#      reversed, and one by one at the end of the array)
+for kind in ("sdh", "point"):
+    for shape_ in ((1100, 64), (4700, 64)) if Q else ((1100, 64), (4700, 64), (2051, 129), (16385, 33)):
+        f_ = 2.0e6
+        o_ = _mk(kind)
+        inc_b = rng.uniform(-np.pi, np.pi, shape_)
+        out_b = rng.uniform(-np.pi, np.pi, shape_)
+        big = o_(inc_b, out_b, f_)
+        evaluations += 3
+        nontrivial.add(("image-sized", kind, shape_))
+        chk.count(image_sized_angle_set=f"{kind} {shape_[0]}x{shape_[1]}")
+        rows_ = np.unique(np.concatenate([np.arange(0, 3), rng.integers(0, shape_[0], 5), np.arange(shape_[0] - 40, shape_[0])]))
+        small = _mk(kind)(inc_b[rows_], out_b[rows_], f_)
+        rev = _mk(kind)(inc_b[::-1].copy(), out_b[::-1].copy(), f_)
+        last1 = _mk(kind)(inc_b[-1, -1], out_b[-1, -1], f_)
+        sc_ = max(float(np.max(np.abs(v))) for v in small.values())
+        for k in ("LL", "LT", "TL", "TT"):
+            okk = _same(np.asarray(big[k])[rows_], np.asarray(small[k]), sc_, 1e-11) and _same(np.asarray(big[k]), np.asarray(rev[k])[::-1], sc_, 1e-11) \
+                and abs(complex(np.asarray(big[k])[-1, -1]) - complex(np.asarray(last1[k]))) <= 1e-11 * sc_
+            if not okk:
+                d_ = np.abs(np.asarray(big[k])[rows_] - np.asarray(small[k])).max(axis=1)
+                chk.violation(f"{kind}:image-sized", f"{kind}: S_{k} of an angle pair evaluated inside a {shape_[0]}x{shape_[1]} array differs from the same pair "
+                              "evaluated in a small batch / in the reversed array / alone",
+                              dict(kind=kind, key=k, shape=list(shape_), frequency=f_, rows_compared=rows_, max_abs_difference_per_row=d_,
+                                   last_entry_in_big_call=complex(np.asarray(big[k])[-1, -1]), last_entry_alone=complex(np.asarray(last1[k])),
+                                   angles="rng.uniform(-pi, pi), regenerated by seed and tier"), failing_input_found=True)
+                break
+
 chk.cov["measured_max_residuals"] = {k: worst[k] for k in sorted(worst)}
 chk.finish(
     evaluations=evaluations,
